@@ -281,10 +281,69 @@ func TestC09Aggregate(t *testing.T) {
 				}
 			}
 		}
+		// A second call on the same aggregator (a node runs one aggregator for its whole life): the partial
+		// signatures that were just accepted come again, attached to other content, or offered under another
+		// validator's key; or simply once more. Only the last may publish.
+		followUp := "none"
+		if corruption == "none" {
+			followUp = rapid.SampledFrom([]string{"none", "replayed_signatures_on_other_content", "replayed_under_other_validator", "same_call_again"}).Draw(rt, "followUp")
+		}
+		if followUp != "none" {
+			v0 := vals[0]
+			before := len(got)
+			second := map[core.PubKey][]core.ParSignedData{}
+			switch followUp {
+			case "replayed_signatures_on_other_content":
+				other := valgen.Signed(t, k, int64(rapid.IntRange(1, 1<<30).Draw(rt, "otherSeed")))
+				oSpec, err := specsign.Of(bn, other)
+				spec0, _ := specsign.Of(bn, v0.value)
+				if err != nil || oSpec == spec0 {
+					rt.Skip("other value has the same signing spec")
+				}
+				if p, ok := other.(core.VersionedSignedProposal); ok && (p.Version == eth2spec.DataVersionPhase0 || p.Version == eth2spec.DataVersionAltair) {
+					rt.Skip("pre-merge proposal")
+				}
+				for _, part := range input[v0.pub] {
+					moved, err := other.SetSignature(part.Signature())
+					if err != nil {
+						rt.Skip("type refuses the signature")
+					}
+					second[v0.pub] = append(second[v0.pub], core.ParSignedData{SignedData: moved, ShareIdx: part.ShareIdx})
+				}
+			case "replayed_under_other_validator":
+				secret, err := tbls.GenerateSecretKey()
+				if err != nil {
+					rt.Fatalf("HARNESS-ERROR: %v", err)
+				}
+				g, _ := tbls.SecretToPublicKey(secret)
+				otherPub, _ := core.PubKeyFromBytes(g[:])
+				second[otherPub] = input[v0.pub]
+			default:
+				second[v0.pub] = input[v0.pub]
+			}
+			err2 := agg.Aggregate(ctx, duty, second)
+			if followUp == "same_call_again" {
+				if err2 != nil || len(got) != before+2 {
+					rt.Fatalf("HONEST PARTIALS REJECTED on a second identical call: %s: err=%v, %d new subscriber calls", k.Name, err2, len(got)-before)
+				}
+				for _, set := range got[before:] {
+					if err := specsign.Verify(bn, v0.group, set[v0.pub]); err != nil {
+						rt.Fatalf("INVALID GROUP SIGNATURE PUBLISHED on a second identical call: %s: %v", k.Name, err)
+					}
+				}
+			} else {
+				if err2 == nil {
+					rt.Fatalf("PUBLISHED DESPITE CORRUPTION: %s/%s (second call on one aggregator, n=%d t=%d): Aggregate returned nil", k.Name, followUp, n, thr)
+				}
+				if len(got) != before {
+					rt.Fatalf("SUBSCRIBER CALLED DESPITE ERROR: %s/%s: %d subscriber calls although Aggregate returned %v", k.Name, followUp, len(got)-before, err2)
+				}
+			}
+		}
 		spec0, _ := specsign.Of(bn, vals[0].value)
 		fork := bn.ForkAt(spec0.Epoch).Name
-		nontrivial := nVals > 1 || corruption != "none"
-		vstat.Case(fmt.Sprintf("%s/%d/%d/%s/%s", k.Name, n, thr, corruption, fpParts), nontrivial, "type:"+k.Name, "corruption:"+corruption, "fork_of_epoch:"+fork, cls("multi_validator", nVals > 1))
+		nontrivial := nVals > 1 || corruption != "none" || followUp != "none"
+		vstat.Case(fmt.Sprintf("%s/%d/%d/%s/%s/%s", k.Name, n, thr, corruption, followUp, fpParts), nontrivial, "type:"+k.Name, "corruption:"+corruption, "second_call:"+followUp, "fork_of_epoch:"+fork, cls("multi_validator", nVals > 1))
 		if nontrivial && vstat.WantSample(corruption) {
 			vstat.Sample(corruption, map[string]any{"type": k.Name, "n": n, "t": thr, "validators": nVals, "corruption": corruption, "subsets": fpParts, "domain": spec0.Domain, "fork_of_epoch": fork})
 		}
